@@ -441,3 +441,73 @@ def run_pop_scenario(spec):
 
 def run_pt_scenario(spec):
     return run_pop_scenario(spec)
+
+
+# ----------------------------------------------------------------------------- PatternSearch (GFO.Model.Pattern)
+
+class _SampleProxy:
+    """stands in for the name `random` of pattern_search.py: `sample` is recorded by the indices it picked"""
+
+    def __init__(self, tape):
+        self._tape = tape
+
+    def __getattr__(self, name):
+        return getattr(random, name)
+
+    def sample(self, population, k):
+        out = random.sample(population, k)
+        idx = [[i for i, y in enumerate(population) if y is o][0] for o in out]
+        self._tape.add("g", " ".join([str(len(idx))] + [str(i) for i in idx]))
+        return out
+
+
+def run_pattern_scenario(spec):
+    assert spec["opt"] == "PatternSearch"
+    tape = Tape()
+    holder = {"gen": False}
+
+    def on_built(opt):
+        holder["init_l"] = [[int(x) for x in p] for p in opt.init.init_positions_l]
+        instance_patches(opt, tape)
+        orig_gen = opt.generate_pattern
+
+        def generate_pattern(cur):
+            holder["gen"] = True
+            try:
+                return orig_gen(cur)
+            finally:
+                holder["gen"] = False
+        opt.generate_pattern = generate_pattern
+        orig_c2p = opt.conv2pos
+
+        def conv2pos(pos):
+            if holder["gen"]:
+                tape.add("s", " ".join(tok_f(x) for x in np.asarray(pos, dtype=float).ravel()))
+            return orig_c2p(pos)
+        opt.conv2pos = conv2pos
+    import gradient_free_optimizers.optimizers.global_opt.pattern_search as psm
+    saved = psm.random
+    psm.random = _SampleProxy(tape)
+    try:
+        with module_patches(tape):
+            out = scen.run_scenario(spec, with_model=False, on_built=on_built)
+    finally:
+        psm.random = saved
+    real = out["real"]
+    opt, rec, records, space = real["opt"], real["rec"], real["records"], real["space"]
+    tnew = (f"tnew {opt.init.n_inits} {int(opt.n_positions_)} {tok_rat(opt.rand_rest_p)} "
+            f"{len(holder['init_l'])} " + " ".join(" ".join(str(x) for x in p) for p in holder["init_l"])).rstrip()
+    f = real["f"]
+    lines, expect = drv.encode_history(space, opt.init.n_inits, opt, rec, records, (lambda k, para: f(para)),
+                                       local=dict(lnew=tnew, tape=tape.lines))
+    raised = any(r["exc"] is not None for r in records)
+    if not raised:
+        lines.append("tstate")
+        expect.append("tracker " + tracker_core(opt))
+        expect.append("pattern " + C.show_list([C.show_pos(p) for p in opt.pattern_pos_l], str) +
+                      f" iter={'true' if opt.search_state == 'iter' else 'false'} tapeLeft=0")
+    out.update(lines=lines, expect=expect)
+    out["tape_kinds"] = dict(tape.kinds)
+    out["tape_len"] = len(tape.lines)
+    out["raised"] = raised
+    return out
